@@ -827,8 +827,8 @@ func outlineColor(tokens []Token, _ string) pr.CssProperty {
 		token := tokens[0]
 		if getKeyword(token) == "invert" {
 			return pr.Color{Type: pa.ColorCurrentColor}
-		} else {
-			return pr.Color(pa.ParseColor(token))
+		} else if c := pa.ParseColor(token); !c.IsNone() {
+			return pr.Color(c)
 		}
 	}
 	return nil
@@ -870,6 +870,8 @@ func color(tokens []Token, _ string) pr.DeclaredValue {
 	result := pa.ParseColor(token)
 	if result.Type == pa.ColorCurrentColor {
 		return pr.Inherit
+	} else if result.IsNone() {
+		return nil
 	} else {
 		return pr.Color(result)
 	}
@@ -1285,9 +1287,10 @@ func bleed(tokens []Token, _ string) pr.CssProperty {
 	keyword := getKeyword(token)
 	if keyword == "auto" {
 		return pr.DimOrS{S: "auto"}
-	} else {
-		return getLength(token, true, false).ToValue()
+	} else if length := getLength(token, true, false); !length.IsNone() {
+		return length.ToValue()
 	}
+	return nil
 }
 
 // @validator()
@@ -3638,7 +3641,10 @@ func tabSize(tokens []Token, _ string) pr.CssProperty {
 			return pr.NewDim(pr.Float(number.ValueF), 0).ToValue()
 		}
 	}
-	return getLength(token, false, false).ToValue()
+	if length := getLength(token, false, false); !length.IsNone() {
+		return length.ToValue()
+	}
+	return nil
 }
 
 // @validator(unstable=true)
